@@ -1162,7 +1162,7 @@ func (g *G) printStmt() []ts.Stmt {
 			call.Args[c.i] = ts.VarRef{Name: c.v.Name, Ty: c.v.Ty}
 			l := ts.Len{X: ts.VarRef{Name: c.v.Name, Ty: c.v.Ty}}
 			g.tag("len-call-len")
-			if len(c.f.Rets) == 0 {
+			if len(c.f.Rets) == 0 || c.f.Rets[0].IsSlice() {
 				return []ts.Stmt{ts.Print{Args: []ts.Expr{l}}, ts.ExprStmt{E: call}, ts.Print{Args: []ts.Expr{l}}}
 			}
 			return []ts.Stmt{ts.Print{Args: []ts.Expr{l, call, l}}}
